@@ -72,6 +72,14 @@ macro_rules! dyn_int {
                     5 => (<$t>::MIN).wrapping_add(1),
                     6 => (g.below(300) as $t),
                     7 => (0 as $t).wrapping_sub(g.below(300) as $t),
+                    8 => {
+                        // few distinct low halves under few distinct high halves: values that agree in
+                        // their low (or high) bits, as packed ids do
+                        let half = <$t>::BITS / 2;
+                        let mask = (1 as $t).wrapping_shl(half).wrapping_sub(1);
+                        let lo = (*g.pick(&[0u128, 1, 2, u64::MAX as u128]) as $t) & mask;
+                        (g.below(5) as $t).wrapping_shl(half) | lo
+                    }
                     _ => g.u128() as $t,
                 }
             }
